@@ -796,8 +796,11 @@ def case_tree(ctx, rng, tier, klass):
         raise Skip()
     # (e) reference: forward-mode duals + dense propagation
     duals = [Dual(leaves[i].value, np.eye(n)[i]) for i in range(n)]
-    d = ev_generic(t, duals, _dual_lib(n))
-    if not isinstance(d, Dual):
+    try:
+        d = ev_generic(t, duals, _dual_lib(n))
+    except (OverflowError, ValueError, ZeroDivisionError):
+        raise Skip()   # intermediate value outside the range of floating point: not a case of the property
+    if not isinstance(d, Dual) or not math.isfinite(d.v) or abs(d.v) > 1e8 or not np.all(np.isfinite(d.g)) or np.max(np.abs(d.g)) > 1e8:
         raise Skip()
     flib = _float_lib()
     f = lambda v: float(ev_generic(t, list(v), flib))
